@@ -1,7 +1,7 @@
 (* Properties_C11.v — C11: the set/get/list API behaves as an ordered map
    from (section, key) to text.  Statements only; proofs are in KeyfileFacts.v *)
 From Coq Require Import String.
-From Econf Require Import Bytes BytesFacts MapSpec KeyfileFacts.
+From Econf Require Import Bytes BytesFacts MapSpec KeyfileFacts MapLaws.
 Local Open Scope N_scope.
 
 (* Every history of set / get / get-with-default / list calls on an object
@@ -78,6 +78,35 @@ Theorem C11_default_string : forall r d,
   end.
 Proof. intros [e|v] d; [destruct e|]; reflexivity. Qed.
 Print Assumptions C11_default_string.
+
+(* further laws of the reference (MapLaws.v): the last write wins in place, a
+   set of the current value is a no-op, sets on different keys commute unless
+   both keys are new, the size grows by one exactly for a new key, the other
+   bindings keep order and value, and sections are independent *)
+Theorem C11_overwrite : forall l k v v', al_set (al_set l k v) k v' = al_set l k v'.
+Proof. exact al_set_set_same. Qed.
+Print Assumptions C11_overwrite.
+Theorem C11_set_current_value : forall l k v, al_get l k = Some v -> al_set l k v = l.
+Proof. exact al_set_get_id. Qed.
+Print Assumptions C11_set_current_value.
+Theorem C11_sets_commute : forall l k v k' v',
+  k <> k' -> (al_get l k <> None \/ al_get l k' <> None) ->
+  al_set (al_set l k v) k' v' = al_set (al_set l k' v') k v.
+Proof. exact al_set_comm. Qed.
+Print Assumptions C11_sets_commute.
+Theorem C11_size_after_set : forall l k v,
+  length (al_set l k v) = match al_get l k with Some _ => length l | None => S (length l) end.
+Proof. exact al_set_length. Qed.
+Print Assumptions C11_size_after_set.
+Theorem C11_others_untouched : forall l k v,
+  filter (fun b => negb (str_eqb (fst b) k)) (al_set l k v) =
+  filter (fun b => negb (str_eqb (fst b) k)) l.
+Proof. exact al_set_filter_other. Qed.
+Print Assumptions C11_others_untouched.
+Theorem C11_sections_independent : forall a g k v g',
+  g' <> g -> sp_binds (sp_set a g k v) g' = sp_binds a g'.
+Proof. exact sp_set_other_section. Qed.
+Print Assumptions C11_sections_independent.
 
 (* non-vacuity: a history that creates, overwrites, misses and grows beyond
    the eight pre-allocated entries *)
